@@ -21,7 +21,7 @@ CHECKS = {
  "C10": ("for every (data set, mirrored transform config) state the tabulator emits A x B and B x A of the same respondents (CAT x CAT incl. numeric, CAT_DATE x CAT, CAT x MR / MR x CAT, MR x MR, CA both orientations); output pairs found by introspection (row_*<->column_*, rows_*<->columns_*, index lists, masks, orders) must be equal / transposed and direction-free outputs must be transposes", "4/C10"),
  "C06": ("differential over (data set, transform config) states: each partition of a 3-D cube (table = CAT with the missing category first/mid/last, MR, CA items; rows x columns = CAT/MR pairings) must equal on EVERY introspected public output the library's 2-D analysis of the respondents restricted by the model to table element k; CA-as-0th strands = univariate analysis of the sub-variable, partition sets line up cube by cube, tab-book sets, inflated numeric-summary cubes keep every value", "4/C06"),
  "C13": ("(events of 1 or 3 identical respondents, config: subtotal column/row, alpha pair, only-larger flag, column order/hide) states on CAT x CAT (plain and squared weights), CAT x MR with and without overlap measures, MR x MR with overlaps, mean+stddev responses: t and p from the statement's formulas (unweighted or effective bases, Welch, overlap-corrected) computed from respondents; antisymmetry / symmetry / self-zero; index sets = exactly the other displayed columns below alpha (and smaller in only-larger mode), never self, secondary contains primary", "4/C13"),
- "C19": ("pure configuration space: array dimensions (MR rows/columns under element-id schemes 1..n, 0..n-1, 10/20/30, with a derived item; CA items; numeric array; datetime) x 11 transform slots (hide, rename, fill, explicit order, fixed top/bottom, opposing element, opposing insertion, key: alias / subvar_id) x every item x every unambiguous spelling (alias, sub-variable id, element id int/str, position int/str, datetime value), plus stale / malformed references: all ~120 public outputs identical to the alias spelling; unmatched reference == omitted, never raises", "4/C19"),
+ "C19": ("pure configuration space: array dimensions (MR rows/columns under element-id schemes 1..n, 0..n-1, 10/20/30, with a derived item; CA items; numeric array; datetime) x 11 transform slots (hide, rename, fill, explicit order, fixed top/bottom, opposing element, opposing insertion, key: alias / subvar_id) x every item x every unambiguous spelling (alias, sub-variable id, element id int/str, position int/str, datetime value), plus stale / malformed references; id-less categorical-array items and digit-string sub-variable ids colliding with a derived item's element id; two references per state (five slot pairings x ordered item pairs x spelling pairs): all ~120 public outputs identical to the alias spelling; unmatched reference == omitted, never raises", "4/C19"),
  "C18": ("explicit exploration of access histories on the real object graph: 21 inputs concentrated on what the library rewrites in place or caches (incl. categorical-date smoothing, sum measures, alias-keyed element transforms) (array-dimension transforms with every id spelling and stale ids, 3-D cubes sharing one transforms dict, tab-book / CA-as-0th / numeric-summary / single-column-filter cube sets, JSON text); events = reads of root and partition properties/methods and new(same|json|envelope|json-of-envelope|standalone cube) built from the USED argument objects; all histories to depth 2 (3 thorough) from the initial state and from after-read-everything / after-new / after-failed-read; oracle = reference table from pristine copies + full re-evaluation from the used arguments; plus a cooperative two-thread scheduler (switch points = every lazyproperty about to compute, preemption bound 1, 2 thorough, each schedule replayed twice)", "4/C18"),
  "C01": ("every multiset of <=N respondents over each schema's answer-profile alphabet is tabulated into a server payload and the real Cube/partition outputs are compared cell by cell with a respondent-loop oracle; covers all type pairings, missing-category positions, 1-D/2-D/3-D, weighted, numeric and numeric-array responses", "4/C01"),
 }
